@@ -23,6 +23,9 @@ def _a(text, ref, engine="A", extra=""):
                 text=text, design_ref=ref,
                 note="Trusted: z3; the overlay's model of Fq (= the contracts engine L proves for the limb kernels); parametricity of the generic group code in its base ring; F_q is an integral domain; Python reference written from the standard.")
 CHECKS.update({
+ "C05": dict(engine="L+A", technique="cut-point verification of the scalar-multiplication loop on the release LLVM IR (callees abstracted to integer coefficients, invariants found Houdini-style, z3 LIA) + algebraic group-law identities (z3)",
+             text="For EVERY 256-bit scalar k < r: the release IR of the generic double-and-add (both instantiations) returns coefficient k when double/add are abstracted to 2c / c1+c2 - 3079 LIA obligations over 514 cut-point states, with a wrong-abstraction canary; the abstraction is justified by the C04 obligations (every branch of add/double is the group law on every representative, non-canonical identities included), and the scalar the loop sees is the canonical value (L-dec-r).",
+             design_ref="DESIGN.md 3.3b, 5 (C05)", note="Trusted: z3; the IR shape (loop with out-of-line double/add), else inconclusive; group-law obligations of C04; r*G = O for the generators by the Python affine reference."),
  "C14": _a("All paths of the real Fq2::sqrt over symbolic inputs: soundness on every Some leaf; completeness on squares x = c^2, on all real x (both quadratic characters, both roots the norm's square root may return) and None on purely imaginary x, with leaf feasibility decided by quadratic-character reasoning. Fq::sqrt is assumed by contract.", "DESIGN.md 5 (C14)"),
  "C03": _a("The three pairing entry points are executed symbolically end to end on symbolic representatives (z = 1, symbolic z, z = 0 with arbitrary x, y): the result expression may depend on the raw coordinates only through the to_affine outputs (non-interference by dependency analysis of the DAG), identity arguments give the constant one, a prepared value gives the identical expression on every use; candidates are confirmed natively.", "DESIGN.md 5 (C03)", "A", "; representation independence decided as a dependency property of the symbolic result"),
  "C04": _a("Every leaf (all 4-way representation dispatch x equal / opposite / independent / j=0-automorphism-related / identity operands, incl. non-canonical identities) of the real generic add/sub/+=/double/neg equals the affine chord-and-tangent law as a polynomial identity over an abstract commutative ring with symbolic curve coefficient b - unbounded in the inputs; covers G1 and G2 by parametricity.", "DESIGN.md 5 (C04)"),
@@ -38,5 +41,5 @@ NOT_APPLICABLE = {
  "C01": "Bilinearity/non-degeneracy are theorems about Miller functions of degree ~2^65 in the inputs, not a bounded computation: no loop bound or input bound exists under which the real code still computes the SM9 pairing, and one symbolic Montgomery multiplication already exceeds CBMC (20 min, no verdict); the decidable mechanisms are checked under C03/C17.",
  "C02": "Byte-exact end-to-end value of a 65-iteration Miller loop plus a ~3000-bit exponentiation (~10^5 Montgomery multiplications, bit-precisely) cannot be encoded within reach of CBMC/z3; tower, Frobenius constants, final exponentiations and line functions are decided under C17.",
 }
-for p in ["C05"]:
+for p in []:
     NOT_APPLICABLE[p] = PENDING
